@@ -65,7 +65,55 @@ def corrupt(rng, data, ops):
     return out
 
 
+def trusted_names(scratch):
+    """globals the library itself TRUSTS (its ML allow-list) whose package is not installed here: observable stand-in
+    packages are written to a directory on the child's path, so importing or resolving one during an analysis is an event.
+    Chosen at run time from the tree under verification (nothing is assumed about the list's contents)."""
+    import importlib.util
+    try:
+        import fickling.ml as ml
+        table = dict(ml.ML_ALLOWLIST)
+    except Exception:  # noqa: BLE001
+        return [], None
+    root = os.path.join(scratch, "trusted_pkgs")
+    out = []
+    for mod in sorted(table):
+        top = mod.split(".")[0]
+        if top.startswith("_") or not all(part.isidentifier() for part in mod.split(".")):
+            continue
+        try:
+            if importlib.util.find_spec(top) is not None:
+                continue
+        except Exception:  # noqa: BLE001
+            continue
+        names = [n for n in table[mod] if isinstance(n, str) and n.isidentifier()]
+        if not names:
+            continue
+        parts = mod.split(".")
+        for i in range(1, len(parts) + 1):          # packages down to the module, each logging its own import
+            d = os.path.join(root, *parts[:i])
+            leaf = i == len(parts)
+            path = d + ".py" if leaf else os.path.join(d, "__init__.py")
+            if leaf and os.path.isdir(d):
+                path = os.path.join(d, "__init__.py")
+            os.makedirs(os.path.dirname(path), exist_ok=True)
+            if not os.path.exists(path):
+                with open(path, "w") as f:
+                    f.write("import verif_sink\nverif_sink.calls.append(('trusted-imported', (__name__,), {}))\n")
+                    if leaf:
+                        for n in names:
+                            f.write(f"class {n}:\n    def __init__(self, *a, **k):\n        verif_sink.calls.append(('trusted-called', a, k))\n")
+        out.append((mod, names[0]))
+        if len(out) >= 3:
+            break
+    return out, (root if out else None)
+
+
 def run(ctx):
+    scratch = tempfile.mkdtemp(prefix="verif_c01_")
+    trusted, extra_path = trusted_names(scratch)
+    DANGEROUS.extend(t for t in trusted if t not in DANGEROUS)
+    ctx.notes.append("globals the library trusts (allow-listed, not installed) given observable stand-ins: " + (", ".join(f"{m}.{n}" for m, n in trusted) or "none"))
     progs = vmfamily.generate(ctx, "calls", 4 if ctx.quick else 5)
     ctx.rng.shuffle(progs)
     progs = [p for p in progs if vmfamily.uses_symbols(p)][: (350 if ctx.quick else 6000)]
@@ -103,10 +151,9 @@ def run(ctx):
     for data, tag in genvalues.natural_pickles(ctx.rng, 40 if ctx.quick else 600):
         if len(data) < 5000:
             inputs.append({"hex": data.hex(), "named": ["verif_nat"], "tag": "natural"})
-    scratch = tempfile.mkdtemp(prefix="verif_c01_")
     try:
         pj, outp = os.path.join(ctx.tmp, "c01_in.json"), os.path.join(ctx.tmp, "c01_out.json")
-        json.dump({"scratch": scratch, "inputs": inputs}, open(pj, "w"))
+        json.dump({"scratch": os.path.join(scratch, "work"), "inputs": inputs, "extra_path": extra_path}, open(pj, "w"))
         env = dict(os.environ, PYTHONPATH=os.pathsep.join([ROOT] + ([os.environ["VERIF_REPO"]] if os.environ.get("VERIF_REPO") else [])))
         r = subprocess.run([sys.executable, "-m", "harness.c01child", pj, outp], cwd=ROOT, env=env, capture_output=True, text=True, timeout=3000)
         if r.returncode != 0:
@@ -130,10 +177,10 @@ def run(ctx):
     return finish(ctx, level="model_checking", failures=failures, evaluations=len(recs), distinct_nontrivial=len(nontriv),
                   rule="TLC enumerates the typed opcode programs of profile `calls` (every global-resolving and call-making opcode); the "
                        "symbolic global is instantiated with 18 dangerous / not-yet-imported / non-existent / sink globals; token-level and "
-                       "byte-level corruptions and natural pickles are added; every input goes through 11 analysis entry points in a "
+                       "byte-level corruptions and natural pickles are added; every input goes through 13 analysis entry points (incl. every analysis on its own and the ML recipe) in a "
                        "sandboxed child under an audit hook and TLC validates each bracketed event trace against the alphabet of permitted "
                        "effects (spec/Inert.tla); non-trivial = the input names at least one module; distinct by (bytes, entry point)",
-                  samples=samples, traces=len(recs), assumptions=ASSUME, extra={"inputs": len(inputs), "entry_points": 11})
+                  samples=samples, traces=len(recs), assumptions=ASSUME, extra={"inputs": len(inputs), "entry_points": 13})
 
 
 def replay(ctx, path):
